@@ -149,17 +149,17 @@ def check_live(case, ctx):
             sn = sa.select(t.c.id, nat.label("v")).order_by(t.c.id)
             se = sa.select(t.c.id, E.Grouping(exp).label("v")).order_by(t.c.id)
             rn, re_ = _run(conn, sn), _run(conn, se)
-            results = [("select", rn, re_, sn)]
+            results = [("select", rn, re_, sn, se)]
             if tree[1] == "b":
                 wn = sa.select(t.c.id).where(nat).order_by(t.c.id)
                 we = sa.select(t.c.id).where(E.Grouping(exp)).order_by(t.c.id)
-                results.append(("where", _run(conn, wn), _run(conn, we), wn))
+                results.append(("where", _run(conn, wn), _run(conn, we), wn, we))
             if any(r[1][0] == "err" for r in results):
                 cls.append("dbapi-error")
             elif rows and any("NoneType:None" in row[1] for row in rn[1]):
                 cls.append("null-result")
             ctx.note({"expr": tree, "rows": rows}, nontrivial, classes=cls)
-            for pos, a, e, stmt in results:
+            for pos, a, e, stmt, stmt_e in results:
                 if a[0] == "err" and e[0] == "err" and a[1] == e[1]:
                     if "syntax error" in a[2] or "syntax error" in e[2]:
                         raise Violation("C01/sqlite/syntax-error-both", f"both renderings are rejected by the backend: {a[2]}", observed=[a, e])
@@ -178,7 +178,7 @@ def check_live(case, ctx):
                     ("C01/" + kind) if trig else ("C01/sqlite/" + kind),
                     f"natural rendering and fully parenthesised rendering disagree in {pos} position: {sql!r}",
                     observed={"natural": a, "sql": sql},
-                    expected={"explicit": e, "sql": str(results[0][3].compile(eng)) and str((se if pos == 'select' else we).compile(eng))},
+                    expected={"explicit": e, "sql": str(stmt_e.compile(eng))},
                 )
     finally:
         eng.dispose()
@@ -302,7 +302,7 @@ def check_grammar(case, ctx):
         try:
             with eng.connect() as conn:
                 md.create_all(conn)
-                conn.execute(t.insert(), X.row_dicts(case["rows"]))
+                conn.execute(t.insert(), X.row_dicts(case.get("rows") or [[1, 2, 0.5, "a", "b", True, False]]))
                 raw = conn.connection.dbapi_connection
                 res = []
                 for text in (sql, again):
@@ -349,6 +349,6 @@ def _grammar_cases(draw, max_depth):
 def subs(tier):
     md = 5 if tier == "quick" else 7
     return [
-        Generated("live", check_live, strategy=_live_cases(md), quick=3000, thorough=300000),
-        Generated("grammar", check_grammar, strategy=_grammar_cases(md), quick=3000, thorough=300000),
+        Generated("live", check_live, strategy=_live_cases(md), quick=4000, thorough=300000),
+        Generated("grammar", check_grammar, strategy=_grammar_cases(md), quick=4000, thorough=300000),
     ]
